@@ -89,10 +89,16 @@ FURNITURE = {
 }
 
 
-def furnish(path):
+MARKERS = ("foundry.toml", "package.json", "Solstat.toml", "solstat.toml", "remappings.txt")
+
+
+def furnish(path, markers=True):
     """The files a real project directory holds next to its contracts (version control, tool configuration, notes):
     a run must neither read a meaning into them nor touch them."""
     for rel, data in FURNITURE.items():
+        if not markers and rel in MARKERS:
+            # a directory BELOW a project root: the project's own configuration files are further up
+            continue
         p = os.path.join(path, rel)
         os.makedirs(os.path.dirname(p), exist_ok=True)
         if not os.path.exists(p):
